@@ -209,8 +209,7 @@ data, non-ASCII names.  `toXML` never writes any of these. -/
 
 def isWs (c : Char) : Bool := c = ' ' || c = '\t' || c = '\n' || c = '\r'
 
-def nameStart (c : Char) : Bool :=
-  ('a' ≤ c && c ≤ 'z') || ('A' ≤ c && c ≤ 'Z') || c = '_' || c = ':'
+XX
 
 def nameChar (c : Char) : Bool := nameStart c || ('0' ≤ c && c ≤ '9') || c = '-' || c = '.'
 
